@@ -1363,6 +1363,21 @@ func (fr *Frame) inlineClosure(st *State, fl *ast.FuncLit, call *ast.CallExpr) [
 	for _, rv := range results {
 		st.vars[rv] = e.zeroValue(rv.Type())
 	}
+	// goroutine closure (`go func(){..}()`) in a module whose Go version has one loop variable per loop (< 1.22): a
+	// loop variable read inside the goroutine has whatever value the loop has reached when the goroutine runs
+	saved := map[*types.Var]*Term{}
+	if e.inGoStmt && e.sharedLoopVars {
+		e.inGoStmt = false
+		for _, lv := range e.loopVars {
+			if cur, ok := st.vars[lv]; ok && usesVar(fr.info, fl.Body, lv) {
+				saved[lv] = cur
+				nv := Fresh("racy$"+lv.Name(), e.sortOf(lv.Type()))
+				st.Assume(e.typeFacts(nv, lv.Type(), st))
+				st.vars[lv] = nv
+				e.note("goroutine closure at %s reads loop variable %s (go.mod: one variable per loop): its value there is arbitrary", e.pos(fl), lv.Name())
+			}
+		}
+	}
 	base := len(st.defers)
 	outs := nf.execBlock(st, fl.Body.List)
 	var rets []*State
@@ -1385,6 +1400,9 @@ func (fr *Frame) inlineClosure(st *State, fl *ast.FuncLit, call *ast.CallExpr) [
 		fr.unsupported(call, "closure return states cannot be merged")
 	}
 	*st = *rets[0]
+	for lv, cur := range saved {
+		st.vars[lv] = cur
+	}
 	var res []*Term
 	for _, rv := range results {
 		res = append(res, st.vars[rv])
@@ -1458,4 +1476,16 @@ func (e *Engine) acquiresRecvLock(fi *FuncInfo) string {
 	}
 	fi.acqLock = &res
 	return res
+}
+
+// usesVar: does the syntax tree mention the variable?
+func usesVar(info *types.Info, n ast.Node, v *types.Var) bool {
+	found := false
+	ast.Inspect(n, func(x ast.Node) bool {
+		if id, ok := x.(*ast.Ident); ok && info.Uses[id] == v {
+			found = true
+		}
+		return !found
+	})
+	return found
 }
